@@ -636,6 +636,53 @@ def r11_header_fields_present(ck, cx, rule='R11'):
     ck.floor(rule, n, 8, 'constant-key header reads on the paths of processIncomingPacket')
 
 
+
+def r14_client_decoder_contains(ck, cx, rule='R14'):
+    """The framers hand the frame body to ClientDecoder.decode outside any handler of their own, and the transaction manager calls
+    the framer outside _transact's handlers.  What a reply's codec raises on a malformed body (struct.error from a short unpack,
+    IndexError from a missing byte-count byte, whatever a registered custom class raises) therefore reaches the caller of the
+    client unless ClientDecoder.decode itself contains it: every path of decode() on which the dispatch helper raises must end in a
+    handler, whatever the exception class."""
+    ck.rule(rule, 'ClientDecoder.decode contains every exception the reply codecs can raise (the dispatch helper is treated as raising an arbitrary Exception): no exceptional exit')
+    d = cx.idx.cls('pymodbus.factory.ClientDecoder')
+    f = cx.method(d, 'decode')
+    ck.saw('functions', f.qn)
+
+    def mr(node, frame, path):
+        if isinstance(node, ast.Call) and isinstance(node.func, ast.Attribute) and U(node.func.value) == 'self' and node.func.attr not in ('decode',):
+            return ['AnyException', 'struct.error', 'IndexError', 'ModbusException']
+        return []
+    # the premise, re-checked on every run: some framer calls decoder.decode() outside a catch-all handler of its own
+    from ..paths import handler_names
+    bare = []
+    for kind, qn in sorted(FRAMER_CLASSES.items()):
+        k = cx.idx.cls(qn)
+        for fn in k.methods.values():
+            for c in ast.walk(fn.node):
+                if isinstance(c, ast.Call) and isinstance(c.func, ast.Attribute) and c.func.attr == 'decode' and U(c.func.value).endswith('decoder'):
+                    enclosed = any(isinstance(a, ast.Try) and any(cx.hier.caught_by('AnyException', handler_names(h)) for h in a.handlers)
+                                   and any(c in list(ast.walk(b)) for b in a.body) for a in _anc(c))
+                    if not enclosed:
+                        bare.append(fn.qn)
+    ck.sample({'rule': rule, 'framer-calls-of-decoder.decode-outside-a-catch-all': sorted(set(bare))})
+    if not bare:
+        ck.ob(rule, f.qn, 'every framer encloses decoder.decode() in a catch-all handler of its own', True)
+        ck.floor(rule, 1, 1, 'premise')
+        return
+    n = nraise = 0
+    for p in cx.enum(f, d, resolver=lambda c, fr, pa: None, may_raise=mr, max_depth=0):
+        n += 1
+        if any(e.kind == 'raise' for e in p.ev):
+            nraise += 1
+        esc = p.exit[1] if (p.exit and p.exit[0] == 'exc') else None
+        ck.ob(rule, f.qn, 'an exception raised while decoding a reply does not leave ClientDecoder.decode', esc is None,
+              detail='decoder-lets-escape %s' % esc, loc=cx.floc(f),
+              message='ClientDecoder.decode lets %s raised by the reply codec escape: the framer calls it outside any handler and the transaction manager calls '
+                      'the framer outside _transact, so a framed but malformed reply makes the client call raise instead of returning an error object'
+                      % ('an arbitrary exception' if esc == 'AnyException' else esc))
+    ck.floor(rule, nraise, 2, 'raising paths of ClientDecoder.decode')
+
+
 def run(ck, tier):
     cx = Ctx()
     ck.guard(r8_send_wait_loop_progress, ck, cx)
@@ -654,4 +701,10 @@ def run(ck, tier):
     ck.guard(r4_state, ck, cx, sh)
     ck.assume('wall-clock bounds of the transports\' blocking calls and _wait_for_data with timeout=None are not decided')
     ck.assume('that a following transaction returns the correct reply is not decided (C08 decides the pairing structure)')
+    from .. import ownership as _own
+    ck.guard(_own.rule_instance_owned, ck, cx, 'R12', _own.MANAGERS, "state of one client's transactions (silent units, pending replies) leaks into another client's calls", 3)
+    from .. import loops as _loops
+    from ..msgtables import registered_classes as _rc
+    ck.guard(_loops.rule_cursor_loops, ck, cx, 'R13', _rc(cx)[1], 'the client call hangs inside the decoder on one malformed reply instead of returning an error object', 8)
+    ck.guard(r14_client_decoder_contains, ck, cx)
     return cx.idx
